@@ -30,12 +30,12 @@ end
 /-- the table `R` made from `b`: grown, and the nodes of the labels `ds` are set -/
 def TrGood (cx : Cx) (env : Src.Env) (R b : Src.B) (ds : List String) : Prop :=
   Grow cx.Z b R ∧
-  (cx.Z ≤ (tbl b).length → ∀ n ∈ ds, ∀ i, env.labels.lookup n = some i → ∃ kn, (tbl R)[i]? = some (.silent kn))
+  ((∀ i, cx.Z i → i < (tbl b).length) → ∀ n ∈ ds, ∀ i, env.labels.lookup n = some i → ∃ kn, (tbl R)[i]? = some (.silent kn))
 
 theorem TrGood.nil {cx : Cx} {env : Src.Env} {R b : Src.B} (h : Grow cx.Z b R) : TrGood cx env R b [] :=
   ⟨h, fun _ n hn => by simp at hn⟩
 
-theorem Grow.keeps_silent {Z : Nat} {b b' : Src.B} (h : Grow Z b b') {i k : Nat} (hi : (tbl b)[i]? = some (.silent k)) :
+theorem Grow.keeps_silent {Z : Nat → Prop} {b b' : Src.B} (h : Grow Z b b') {i k : Nat} (hi : (tbl b)[i]? = some (.silent k)) :
     ∃ k', (tbl b')[i]? = some (.silent k') := by
   have hlt : i < (tbl b).length := by
     rcases Nat.lt_or_ge i (tbl b).length with h' | h'
@@ -52,7 +52,7 @@ theorem TrGood.seq {cx : Cx} {env : Src.Env} {b R1 R2 : Src.B} {d1 d2 d : List S
   rcases hd n hn with h | h
   · obtain ⟨kn, e⟩ := h1.2 hz n h i hl
     exact h2.1.keeps_silent e
-  · exact h2.2 (Nat.le_trans hz h1.1.len) n h i hl
+  · exact h2.2 (fun i' hz' => Nat.lt_of_lt_of_le (hz i' hz') h1.1.len) n h i hl
 
 theorem TrGood.after {cx : Cx} {env : Src.Env} {b R R' : Src.B} {d : List String} (h : TrGood cx env R b d) (hg : Grow cx.Z R R') :
     TrGood cx env R' b d :=
@@ -70,7 +70,7 @@ theorem TrGood.set_ge {cx : Cx} {env : Src.Env} (he : EnvOK cx env) {b R : Src.B
     (hi : (tbl b).length ≤ i) (n : Src.Node) : TrGood cx env (R.set i n) b d := by
   refine ⟨h.1.set_ge hi n, fun hz m hm j hl => ?_⟩
   obtain ⟨kn, e⟩ := h.2 hz m hm j hl
-  have hj := he.3 m j hl
+  have hj := hz j (he.3 m j hl)
   exact ⟨kn, by rw [tbl_set, List.getElem?_set_ne (by omega)]; exact e⟩
 
 theorem testChain_pushes (sb : List (String × Beh.Param)) : ∀ (ts : List Ev) (x y : Nat) (b : Src.B), Pushes b (Src.testChain sb ts x y b).1
@@ -121,7 +121,7 @@ theorem tr_good : ∀ (S : Src.Stmt) (env : Src.Env), EnvOK cx env → ∀ k b, 
       refine ⟨Grow.set_lab b (he.3 n i hl) k, fun hz m hm j hj => ?_⟩
       simp at hm; subst hm
       rw [hl] at hj; cases hj
-      exact ⟨k, by rw [tbl_set, List.getElem?_set_self (by have := he.3 m i hl; omega)]⟩
+      exact ⟨k, by rw [tbl_set, List.getElem?_set_self (hz i (he.3 m i hl))]⟩
   | .jump n, env, he, k, b => by
     rw [Src.tr]; exact TrGood.nil (lookupLabel_pushes env b n).grow
   | .call n, env, he, k, b => by
